@@ -62,11 +62,30 @@ type Seg struct {
 	Sep  string `json:"sep,omitempty"`
 	Gap  string `json:"gap,omitempty"`
 	Body string `json:"body,omitempty"`
+	// Fill (absent in older replay files): so many letters 'x' follow the text of the segment (after T
+	// of an identifier, a string or a template literal, after Body of a comment): very long tokens and
+	// lines; in a white-space segment so many further line breaks.
+	Fill int `json:"fill,omitempty"`
 }
+
+func (s Seg) filler() string {
+	if s.Fill <= 0 {
+		return ""
+	}
+	if s.K == kWs {
+		return strings.Repeat("\n", s.Fill)
+	}
+	return strings.Repeat("x", s.Fill)
+}
+
+// body: the remaining text of a comment (Body and the filler).
+func (s Seg) body() string { return s.Body + s.filler() }
 
 type SrcFile struct {
 	Path string `json:"path"` // relative, slash separated
 	Segs []Seg  `json:"segs"`
+	// Bom (absent in older replay files): the text starts with a byte order mark (U+FEFF).
+	Bom bool `json:"bom,omitempty"`
 }
 
 type Case struct {
@@ -89,18 +108,28 @@ type Case struct {
 	OmitExt bool `json:"omit_ext,omitempty"`
 	// LongFlags (CLI): --path / --ext=... instead of -p / -e.
 	LongFlags bool `json:"long_flags,omitempty"`
+	// FlagForm (CLI), when not 0 it overrides LongFlags: 2 "--path=v --ext v", 3 "-p=v -e=v",
+	// 4 "-pv -ev" (value attached to the short option).
+	FlagForm int `json:"flag_form,omitempty"`
+	// ExtFirst (CLI): the extension option stands before the path option.
+	ExtFirst bool `json:"ext_first,omitempty"`
+	// Files2: after all other scans the directory is emptied, these files are written into it
+	// (possibly under the same paths, with other content) and it is scanned again with Filters.
+	Files2 []SrcFile `json:"files2,omitempty"`
+	// SameApp (API): all scans of the case use one TodoApp value instead of a new one each.
+	SameApp bool `json:"same_app,omitempty"`
 }
 
 func (s Seg) isComment() bool { return s.K == kLine || s.K == kBlock || s.K == kHash }
 
-func (s Seg) inner() string { return s.Lead + s.Mark + s.Sep + s.Gap + s.Body }
+func (s Seg) inner() string { return s.Lead + s.Mark + s.Sep + s.Gap + s.body() }
 
 func (s Seg) text() string {
 	switch s.K {
 	case kCode, kWs:
-		return s.T
+		return s.T + s.filler()
 	case kStr:
-		return `"` + s.T + `"`
+		return `"` + s.T + s.filler() + `"`
 	case kChr:
 		return `'` + s.T + `'`
 	case kLine:
@@ -112,13 +141,18 @@ func (s Seg) text() string {
 	case kOpen:
 		return "/*" + s.T
 	case kTpl:
-		return "`" + s.T + "`"
+		return "`" + s.T + s.filler() + "`"
 	}
 	return ""
 }
 
+const bom = "\uFEFF"
+
 func (f SrcFile) text() string {
 	var sb strings.Builder
+	if f.Bom {
+		sb.WriteString(bom)
+	}
 	for _, s := range f.Segs {
 		sb.WriteString(s.text())
 	}
@@ -134,14 +168,15 @@ var (
 	reCodeToken = regexp.MustCompile(`^([\p{L}_$][\p{L}\p{N}_$]*|[0-9][0-9a-zA-Z_.]*|\.[0-9]+|[-+*/=<>!~?:&|^%@.]+|[(){}\[\];,])$`)
 	reStrInner  = regexp.MustCompile(`^([^"\\\r\n]|\\[btnfr"'\\]|\\[0-3]?[0-7]?[0-7]|\\u+[0-9a-fA-F]{4})*$`)
 	reChrInner  = regexp.MustCompile(`^([^'\\\r\n]|\\[btnfr"'\\]|\\[0-3]?[0-7]?[0-7]|\\u+[0-9a-fA-F]{4})$`)
-	reWs        = regexp.MustCompile(`^[ \t\r\n]*$`)
+	reWs        = regexp.MustCompile(`^[ \t\r\n\f]*$`)
+	reIdent     = regexp.MustCompile(`^[\p{L}_$][\p{L}\p{N}_$]*$`)
 	reBlanks    = regexp.MustCompile(`^[ \t]*$`)
 	reBlanksNl  = regexp.MustCompile(`^[ \t\r\n]*$`) // block comments: blanks and line breaks
 	reSep       = regexp.MustCompile(`^(|[ \t]*:|\( *[A-Za-z0-9_.+\-@]([A-Za-z0-9_ .+\-@]*[A-Za-z0-9_.+\-@])? *\)([ \t]*:)?)$`)
 	reSepBlock  = regexp.MustCompile(`^(|[ \t\r\n]*:|\( *[A-Za-z0-9_.+\-@]([A-Za-z0-9_ .+\-@]*[A-Za-z0-9_.+\-@])? *\)([ \t\r\n]*:)?)$`)
 	reOpenText  = regexp.MustCompile(`^[A-Za-z0-9 :().\n]*$`)
-	rePathPart  = regexp.MustCompile(`^\.?[A-Za-z0-9_-]+(\.[A-Za-z0-9_]+)*$`)
-	reFileName  = regexp.MustCompile(`^[A-Za-z0-9_-]+(\.[A-Za-z0-9_~+]+)+$`)
+	rePathPart  = regexp.MustCompile(`^\.?[\p{L}\p{N}_$-]([\p{L}\p{N}_$ -]*[\p{L}\p{N}_$-])?(\.[A-Za-z0-9_]+)*$`)
+	reFileName  = regexp.MustCompile(`^\.?[\p{L}\p{N}_$-]([\p{L}\p{N}_$ -]*[\p{L}\p{N}_$-])?(\.[A-Za-z0-9_~+]+)+$`)
 	reFilter    = regexp.MustCompile(`^\.[a-z0-9+]+$`)
 )
 
@@ -214,7 +249,7 @@ func guardComment(s Seg) string {
 		if s.Sep != "" || s.Gap != "" {
 			return "sep/gap without mark"
 		}
-		if beginsLikeMark(s.Body) {
+		if beginsLikeMark(s.body()) {
 			return "unmarked comment whose text begins like a mark"
 		}
 		return ""
@@ -225,8 +260,8 @@ func guardComment(s Seg) string {
 	if !sep.MatchString(s.Sep) {
 		return "separator form outside the domain"
 	}
-	if s.Body != "" {
-		r := firstRune(s.Body)
+	if s.body() != "" {
+		r := firstRune(s.body())
 		if unicode.IsSpace(r) || r == ':' || r == '(' {
 			return "message starts with blank, colon or parenthesis (ambiguous)"
 		}
@@ -243,6 +278,18 @@ func guardFile(f SrcFile) string {
 		var next *Seg
 		if i+1 < len(f.Segs) {
 			next = &f.Segs[i+1]
+		}
+		if s.Fill != 0 {
+			switch {
+			case s.Fill < 0 || s.Fill > 70000:
+				return fmt.Sprintf("segment %d: filler length outside 0..70000", i)
+			case s.K == kWs && s.Fill > 2000:
+				return fmt.Sprintf("segment %d: more than 2000 further line breaks", i)
+			case s.K == kChr || s.K == kOpen:
+				return fmt.Sprintf("segment %d: filler in a %s segment", i, s.K)
+			case s.K == kCode && !reIdent.MatchString(s.T):
+				return fmt.Sprintf("segment %d: filler after a code token that is not an identifier", i)
+			}
 		}
 		switch s.K {
 		case kCode:
@@ -276,7 +323,7 @@ func guardFile(f SrcFile) string {
 				}
 			}
 		case kTpl:
-			if strings.ContainsAny(s.T, "`\\\r") || !utf8.ValidString(s.T) {
+			if strings.ContainsAny(s.T, "`\\") || strings.Contains(strings.ReplaceAll(s.T, "\r\n", ""), "\r") || !utf8.ValidString(s.T) {
 				return fmt.Sprintf("segment %d: not a template literal body: %q", i, s.T)
 			}
 		case kOpen:
@@ -321,12 +368,26 @@ func guardCase(c Case) string {
 			return "single-file scan of a file that is not in the case or not selected"
 		}
 	}
+	if c.FlagForm != 0 && (c.FlagForm < 2 || c.FlagForm > 4) {
+		return "unknown spelling of the options"
+	}
+	if msg := guardFiles(c.Files); msg != "" {
+		return msg
+	}
+	return guardFiles(c.Files2)
+}
+
+// guardFiles: the files of one state of the directory.
+func guardFiles(files []SrcFile) string {
 	seen := map[string]bool{}
-	for _, f := range c.Files {
+	for _, f := range files {
 		parts := strings.Split(f.Path, "/")
 		for i, p := range parts {
 			if strings.Contains(p, "testData") {
 				return "path mentions testData (skipped by the tool's file walker by design)"
+			}
+			if len(p) > 255 {
+				return "name longer than 255 bytes"
 			}
 			if i < len(parts)-1 && !rePathPart.MatchString(p) {
 				return "directory name outside the domain: " + p
@@ -378,9 +439,9 @@ func sameAssignee(w, got Entry) bool {
 
 func (e Entry) String() string {
 	if e.Padded {
-		return fmt.Sprintf("{file %s line %d assignee %q (outer blanks free) message %q}", e.File, e.Line, e.Assignee, e.Message)
+		return fmt.Sprintf("{file %s line %d assignee %q (outer blanks free) message %q}", e.File, e.Line, e.Assignee, clip(e.Message))
 	}
-	return fmt.Sprintf("{file %s line %d assignee %q message %q}", e.File, e.Line, e.Assignee, e.Message)
+	return fmt.Sprintf("{file %s line %d assignee %q message %q}", e.File, e.Line, e.Assignee, clip(e.Message))
 }
 
 // normMessage: white space collapsed and trimmed. In block comments an asterisk counts as white
@@ -415,7 +476,7 @@ func expected(c Case) ([]Entry, map[string]int) {
 		line := 1
 		for _, s := range f.Segs {
 			if s.isComment() && s.Mark != "" {
-				e := Entry{File: f.Path, Line: line, Message: normMessage(s.Body, s.K == kBlock), Block: s.K == kBlock}
+				e := Entry{File: f.Path, Line: line, Message: normMessage(s.body(), s.K == kBlock), Block: s.K == kBlock}
 				if strings.HasPrefix(s.Sep, "(") {
 					name := sepName(s.Sep)
 					e.Assignee = strings.Trim(name, " ")
@@ -526,7 +587,22 @@ func compare(c Case, got []Entry) string {
 }
 
 func show(f SrcFile) string {
-	return fmt.Sprintf("--- %s ---\n%s\n--- as Go string: %q", f.Path, f.text(), f.text())
+	return fmt.Sprintf("--- %s ---\n%s\n--- as Go string: %q", f.Path, clip(f.text()), clip(f.text()))
+}
+
+var (
+	reLongRun = regexp.MustCompile(`x{100,}|\n{40,}`)
+)
+
+// clip: long runs of the filler letter / of line breaks are abbreviated (messages stay readable
+// and remain a pure function of the case).
+func clip(s string) string {
+	return reLongRun.ReplaceAllStringFunc(s, func(m string) string {
+		if m[0] == '\n' {
+			return fmt.Sprintf("\n<%d line breaks>\n", len(m)-2)
+		}
+		return fmt.Sprintf("xx<%d times x>", len(m)-2)
+	})
 }
 
 // ---- validation with the shipped lexer -------------------------------------------------------
@@ -600,7 +676,7 @@ func precheck(c Case) (pbt.Verdict, bool) {
 		pbt.Count("outside_domain: "+msg, 1)
 		return pbt.Verdict{Skip: true, Classes: []string{"outside_domain"}}, false
 	}
-	for _, f := range c.Files {
+	for _, f := range append(append([]SrcFile{}, c.Files...), c.Files2...) {
 		if msg := lexerRejects(f.text()); msg != "" {
 			pbt.Count("skipped_because_the_shipped_lexer_rejects_the_text", 1)
 			return pbt.Verdict{Skip: true}, false
@@ -610,11 +686,17 @@ func precheck(c Case) (pbt.Verdict, bool) {
 }
 
 // scanAPI runs one AnalysisPath call; file names are reported relative to root.
-func scanAPI(root, path string, filters []string) (got []Entry, crash string) {
+func scanAPI(app *todo.TodoApp, root, path string, filters []string) (got []Entry, crash string) {
 	var todos []*astitodo.TODO
 	stdout := os.Stdout
 	os.Stdout = devNull // the scan prints one line per file
-	p := pbt.Call(func() { todos = todo.NewTodoApp().AnalysisPath(path, filters) })
+	p := pbt.Call(func() {
+		if app == nil {
+			fresh := todo.NewTodoApp()
+			app = &fresh
+		}
+		todos = app.AnalysisPath(path, filters)
+	})
 	os.Stdout = stdout
 	if p != "" {
 		return nil, p
@@ -658,6 +740,11 @@ func checkAPI(c Case) pbt.Verdict {
 		filters []string
 		expect  Case
 	}
+	var app *todo.TodoApp // nil: a new one for every scan
+	if c.SameApp {
+		shared := todo.NewTodoApp()
+		app = &shared
+	}
 	steps := []step{{"AnalysisPath(dir, %v)", dirArg, c.Filters, c}}
 	if c.Twice {
 		steps = append(steps, step{"second AnalysisPath(dir, %v) on the same directory", dirArg, c.Filters, c})
@@ -672,7 +759,7 @@ func checkAPI(c Case) pbt.Verdict {
 	}
 	for _, st := range steps {
 		what := fmt.Sprintf(st.what, st.filters)
-		got, crash := scanAPI(root, st.path, st.filters)
+		got, crash := scanAPI(app, root, st.path, st.filters)
 		if crash != "" {
 			return pbt.Fail("%s crashed: %s\n%s", what, crash, showAll(c))
 		}
@@ -680,8 +767,24 @@ func checkAPI(c Case) pbt.Verdict {
 			return pbt.Fail("%s: %s", what, msg)
 		}
 	}
+	if len(c.Files2) > 0 {
+		c3 := rewritten(c)
+		os.RemoveAll(root)
+		writeCase(c3, root)
+		what := fmt.Sprintf("AnalysisPath(dir, %v) after the directory had been scanned, emptied and filled with other files", c.Filters)
+		got, crash := scanAPI(app, root, dirArg, c.Filters)
+		if crash != "" {
+			return pbt.Fail("%s crashed: %s\n%s", what, crash, showAll(c3))
+		}
+		if msg := compare(c3, got); msg != "" {
+			return pbt.Fail("%s: %s\nbefore:\n%s", what, msg, showAll(c))
+		}
+	}
 	return classify(c)
 }
+
+// rewritten: the second state of the directory, scanned with the same filters.
+func rewritten(c Case) Case { return Case{Files: c.Files2, Filters: c.Filters} }
 
 // cliLayout: working directory, the -p argument ("" = none) and the base that reported file
 // names are relative to.
@@ -703,22 +806,35 @@ func cliLayout(c Case, ws string) (cwd, arg, base string) {
 }
 
 func cliArgs(c Case, arg string, filters []string, omitExt bool) []string {
+	form := c.FlagForm
+	if form == 0 && c.LongFlags {
+		form = 1
+	}
+	var path, ext []string
+	list := strings.Join(filters, ",")
+	switch form {
+	case 1:
+		path, ext = []string{"--path", arg}, []string{"--ext=" + list}
+	case 2:
+		path, ext = []string{"--path=" + arg}, []string{"--ext", list}
+	case 3:
+		path, ext = []string{"-p=" + arg}, []string{"-e=" + list}
+	case 4:
+		path, ext = []string{"-p" + arg}, []string{"-e" + list}
+	default:
+		path, ext = []string{"-p", arg}, []string{"-e", list}
+	}
+	if arg == "" {
+		path = nil
+	}
+	if omitExt {
+		ext = nil
+	}
 	args := []string{"todo"}
-	if arg != "" {
-		if c.LongFlags {
-			args = append(args, "--path", arg)
-		} else {
-			args = append(args, "-p", arg)
-		}
+	if c.ExtFirst {
+		return append(append(args, ext...), path...)
 	}
-	if !omitExt {
-		if c.LongFlags {
-			args = append(args, "--ext="+strings.Join(filters, ","))
-		} else {
-			args = append(args, "-e", strings.Join(filters, ","))
-		}
-	}
-	return args
+	return append(append(args, path...), ext...)
 }
 
 var reTableLine = regexp.MustCompile(`^\|.*\|$`)
@@ -760,7 +876,7 @@ func runCLI(c Case, ws string, filters []string, omitExt bool, expect Case, path
 		return fmt.Sprintf("HARNESS: cannot run coca: %v", err)
 	}
 	clean := func(s string) string { return reUnstable.ReplaceAllString(strings.ReplaceAll(s, ws, "<ws>"), "…") }
-	ctx := clean(fmt.Sprintf("coca %s\nexit %d\nstdout:\n%s\nstderr:\n%s\n%s", strings.Join(args, " "), res.ExitCode, tail(res.Stdout), tail(res.Stderr), showAll(c)))
+	ctx := clean(fmt.Sprintf("coca %s\nexit %d\nstdout:\n%s\nstderr:\n%s\n%s", strings.Join(args, " "), res.ExitCode, tail(res.Stdout), tail(res.Stderr), showAll(expect)))
 	if res.TimedOut || res.ExitCode != 0 {
 		return fmt.Sprintf("`coca todo` did not complete normally (crash?)\n%s", ctx)
 	}
@@ -827,6 +943,14 @@ func checkCLI(c Case) pbt.Verdict {
 			return pbt.Fail("the file's own path instead of the directory: %s", msg)
 		}
 	}
+	if len(c.Files2) > 0 {
+		c3 := rewritten(c)
+		os.RemoveAll(filepath.Join(ws, "src"))
+		writeCase(c3, filepath.Join(ws, "src"))
+		if msg := runCLI(c, ws, c.Filters, c.OmitExt, c3, ""); msg != "" {
+			return pbt.Fail("run after the directory had been scanned, emptied and filled with other files: %s", msg)
+		}
+	}
 	return classify(c)
 }
 
@@ -854,6 +978,22 @@ var reMention = regexp.MustCompile(`(?i)todo|fixme`)
 // TODO / FIXME. Only used to label files in which no reportable comment has that look.
 var reSameLine = regexp.MustCompile(`(?i)(//|/\*|#)[ \t]*(todo|fixme)`)
 
+// reLaterLineMark: inside a block comment, a later line that begins (after blanks and decoration) with a mark.
+var reLaterLineMark = regexp.MustCompile(`(?i)\n[ \t*]*(//|#)?[ \t]*(todo|fixme)`)
+
+// longLines: the numbers of the first line longer than 4096 and of the first longer than 65536 bytes (0 = none).
+func longLines(text string) (past4k, past64k int) {
+	for i, l := range strings.Split(text, "\n") {
+		if len(l) > 4096 && past4k == 0 {
+			past4k = i + 1
+		}
+		if len(l) > 65536 && past64k == 0 {
+			past64k = i + 1
+		}
+	}
+	return
+}
+
 func classify(c Case) pbt.Verdict {
 	v := pbt.Verdict{}
 	set := map[string]bool{}
@@ -869,6 +1009,11 @@ func classify(c Case) pbt.Verdict {
 		reportable, decoys, nlTodos := 0, 0, 0
 		line := 1
 		lastTodoLine := 0
+		text := f.text()
+		past4k, past64k := longLines(text)
+		add(past4k > 0, "line_longer_than_4096_bytes")
+		add(past64k > 0, "line_longer_than_65536_bytes")
+		seenTodo := map[string]bool{}
 		for _, s := range f.Segs {
 			switch {
 			case s.isComment() && s.Mark != "":
@@ -907,6 +1052,21 @@ func classify(c Case) pbt.Verdict {
 					add(strings.Contains(s.Sep, "\n"), "line_break_between_mark_and_colon")
 					add(strings.Contains(s.Lead, "\n") && s.Sep == "" && s.Gap == "" && s.Body == "", "marker_only_on_a_later_line")
 					add(len(s.Lead) >= 4 && !strings.Contains(s.Lead, "\n"), "four_or_more_blanks_after_comment_marker")
+					add(len(s.Lead) > 8 && !strings.Contains(s.Lead, "\n"), "more_than_8_blanks_after_comment_marker")
+					add(len(s.Gap) > 8 && !strings.Contains(s.Gap, "\n"), "more_than_8_blanks_before_the_message")
+					add(line >= 100, "todo_on_line_100_or_later")
+					add(line >= 1000, "todo_on_line_1000_or_later")
+					add(s.Fill > 4096, "todo_message_longer_than_4096_bytes")
+					add(s.Fill > 65536, "todo_message_longer_than_65536_bytes")
+					add(s.Fill > 46341 && len(strings.Fields(s.body())) > 1, "todo_message_with_a_word_wider_than_46341_columns_and_another_word")
+					add(past4k > 0 && line > past4k, "todo_below_a_line_longer_than_4096_bytes")
+					add(past64k > 0 && line > past64k, "todo_below_a_line_longer_than_65536_bytes")
+					add(s.K == kBlock && reLaterLineMark.MatchString(s.Body), "block_todo_with_a_mark_at_the_start_of_a_later_line")
+					add(strings.HasPrefix(s.Sep, "(") && reMention.MatchString(s.Sep), "assignee_named_like_a_mark")
+					add(seenTodo[s.text()], "same_todo_comment_twice_in_one_file")
+					seenTodo[s.text()] = true
+					add(reportable > 16, "more_than_16_todos_in_one_file")
+					add(reportable > 64, "more_than_64_todos_in_one_file")
 					if strings.Contains(s.Lead, "\n") {
 						nlTodos++
 					}
@@ -919,6 +1079,8 @@ func classify(c Case) pbt.Verdict {
 				add(s.K == kBlock && strings.Contains(s.Lead, "\n"), "ordinary_block_comment_opening_with_a_line_break")
 				add(s.K == kBlock && s.Body == "" && strings.Contains(s.Lead, "\n"), "block_comment_of_blanks_and_line_breaks_only")
 				add(utf8.RuneCountInString(s.inner()) == 1, "one_character_comment")
+				add(s.K == kBlock && reLaterLineMark.MatchString(s.Body), "ordinary_block_comment_with_a_mark_at_the_start_of_a_later_line")
+				add(s.Fill > 4096, "ordinary_comment_longer_than_4096_bytes")
 				if reMention.MatchString(s.Body) {
 					decoys++
 					add(true, "comment_mentions_todo_later")
@@ -941,6 +1103,7 @@ func classify(c Case) pbt.Verdict {
 				add(reMention.MatchString(s.T), "identifier_named_todo")
 			case s.K == kWs:
 				add(strings.Contains(s.T, "\r\n"), "crlf")
+				add(strings.Contains(s.T, "\f"), "form_feed_between_tokens")
 			}
 			line += strings.Count(s.text(), "\n")
 		}
@@ -948,6 +1111,9 @@ func classify(c Case) pbt.Verdict {
 			v.NonTrivial = true
 		}
 		add(len(f.Segs) == 0, "empty_file")
+		add(f.Bom, "byte_order_mark")
+		add(f.Bom && sel && len(f.Segs) > 0 && f.Segs[0].isComment() && f.Segs[0].Mark != "", "byte_order_mark_directly_before_a_todo_comment")
+		add(sel && reportable > 0 && strings.Count(text, "\n") > 1 && strings.Count(text, "\n") == strings.Count(text, "\r\n"), "file_with_todos_whose_only_line_break_is_crlf")
 		add(sel && reportable > 0 && nlTodos == reportable, "file_whose_every_todo_starts_on_a_later_line_than_its_marker")
 		add(sel && reportable > 0 && !reSameLine.MatchString(f.text()), "file_with_todos_but_no_marker_followed_by_the_mark_on_its_own_line_anywhere")
 		canon = append(canon, fmt.Sprintf("%v|%s|%s", sel, f.Path[strings.LastIndex(f.Path, "."):], f.text()))
@@ -955,11 +1121,33 @@ func classify(c Case) pbt.Verdict {
 	add(v.NonTrivial, "reportable_and_decoy_in_one_file")
 	add(len(c.Files) > 1, "several_files")
 	add(len(c.Files) > 3, "more_than_3_files")
+	add(len(c.Files) > 8, "more_than_8_files")
+	add(len(c.Files) > 32, "more_than_32_files")
 	bases := map[string]bool{}
+	twins := map[string]bool{}
+	anySelected := false
 	for _, f := range c.Files {
 		parts := strings.Split(f.Path, "/")
 		add(bases[parts[len(parts)-1]], "same_file_name_in_two_directories")
 		bases[parts[len(parts)-1]] = true
+		base := parts[len(parts)-1]
+		if selected(f.Path, c.Filters) {
+			anySelected = true
+			if e, _ := expected(Case{Files: []SrcFile{f}, Filters: c.Filters}); len(e) > 0 {
+				add(twins[base+"\x00"+f.text()], "identical_file_with_todos_in_two_directories")
+				twins[base+"\x00"+f.text()] = true
+			}
+		}
+		stem := base[:strings.LastIndex(base, ".")]
+		add(strings.Contains(strings.TrimPrefix(stem, "."), "."), "file_name_with_several_dots")
+		add(strings.HasPrefix(base, "."), "hidden_file")
+		add(strings.Contains(base, " "), "file_name_with_blank")
+		add(strings.Contains(base, "$"), "file_name_with_dollar")
+		add(len(base) > 200, "file_name_longer_than_200_bytes")
+		add(strings.IndexFunc(f.Path, func(r rune) bool { return r > 127 }) >= 0, "non_ascii_file_or_directory_name")
+		add(strings.Contains(strings.Join(parts[:len(parts)-1], "/"), " "), "directory_name_with_blank")
+		add(reMention.MatchString(f.Path), "path_mentions_todo")
+		add(len(parts) > 6, "directory_six_or_more_levels_deep")
 		for _, d := range parts[:len(parts)-1] {
 			add(strings.HasPrefix(d, "."), "hidden_directory")
 			add(d == "vendor" || d == "node_modules" || d == "build" || d == "target" || d == "testdata", "directory_that_tools_often_skip")
@@ -975,6 +1163,19 @@ func classify(c Case) pbt.Verdict {
 	add(c.PathForm != 0, "path_respelled")
 	add(c.OmitExt, "default_extension_list(-e omitted)")
 	add(c.LongFlags, "long_flags")
+	add(!anySelected, "no_file_selected")
+	add(len(dedup(c.Filters)) < len(c.Filters), "one_extension_twice_in_the_filter_list")
+	add(c.SameApp, "one_TodoApp_value_for_all_scans")
+	add(len(c.Files2) > 0, "directory_rewritten_between_scans")
+	for _, f2 := range c.Files2 {
+		for _, f := range c.Files {
+			add(f.Path == f2.Path && f.text() != f2.text() && selected(f.Path, c.Filters), "selected_file_rewritten_under_the_same_path")
+		}
+	}
+	add(c.FlagForm == 2, "options_spelled_--path=v_--ext_v")
+	add(c.FlagForm == 3, "options_spelled_-p=v_-e=v")
+	add(c.FlagForm == 4, "options_spelled_-pv_-ev")
+	add(c.ExtFirst, "ext_option_before_path_option")
 	for _, e := range c.Filters {
 		add(!strings.Contains(strings.Join(selExts, ",")+",", e+","), "filter_outside_the_default_list")
 	}
@@ -1022,7 +1223,7 @@ var (
 	operators  = []string{"=", "+", "-", "*", "/", "==", "<=", "->", "::", "&&", "/=", "*=", "%", "!", "~", "?", ":", "++", "...", "@", ">>>=", "|"}
 	separators = []string{";", "(", ")", "{", "}", "[", "]", ",", "."}
 	wsList     = []string{" ", "\n", "", "\t", "  ", "\n\n", " \n", "\n    ", "\r\n", "\n\t", "\n\n\n\n\n\n\n\n\n\n\n"}
-	leads      = []string{" ", "", "\t", "  ", " \t ", "    ", "\t\t", "        ", " \t  \t "}
+	leads      = []string{" ", "", "\t", "  ", " \t ", "    ", "\t\t", "        ", " \t  \t ", "                 ", "\t\t\t\t\t\t\t\t\t\t", strings.Repeat(" ", 70)}
 	// block comments only: line breaks between the comment marker and the text, between the mark
 	// (or its separator) and the message, between the mark or '(name)' and the colon
 	nlLeads     = []string{"\n", "\n ", "\n  ", "\n\t", " \n", "\r\n", "\n\n", "\n    ", " \t\n \t", "\r\n  ", "\n\n\n", "  \n"}
@@ -1032,24 +1233,34 @@ var (
 	pads        = []string{" ", "  ", "   "}                       // blanks of the assignee alphabet (space only)
 	colonGaps   = []string{"", "", "", "", " ", "\t", "  ", " \t"} // between the mark or '(name)' and the colon
 	marks       = []string{"TODO", "FIXME", "todo", "fixme", "Todo", "FixMe", "tOdO", "ToDo", "FIXme", "toDO"}
-	names       = []string{"bob", "a", "phodal", "j.doe", "a b", "x@y.z", "me+you", "A_1", "k-9", "a  b", "Bob", "B", "9lives", "QA", "very.long_name-with+all@kinds.of.chars", "_", "007", "a.b.c"}
-	strPieces   = []string{"a", " ", "//", "/*", "*/", "#", "TODO", "TODO: x", "FIXME(bob): y", "// TODO: z", "/* todo */", "# fixme", `\n`, `\"`, `\\`, `\'`, `\u0041`, `\0`, `\177`, "'", "é", "x=1;", "%s"}
+	names       = []string{"bob", "a", "phodal", "j.doe", "a b", "x@y.z", "me+you", "A_1", "k-9", "a  b", "Bob", "B", "9lives", "QA", "very.long_name-with+all@kinds.of.chars", "_", "007", "a.b.c", "todo", "FIXME", "todo.bot"}
+	strPieces   = []string{"a", " ", "//", "/*", "*/", "#", "TODO", "TODO: x", "FIXME(bob): y", "// TODO: z", "/* todo */", "# fixme", `\n`, `\"`, `\\`, `\'`, `\u0041`, `\0`, `\177`, "'", "é", "x=1;", "%s", "😀"}
 	chrList     = []string{"a", "#", "/", "*", `"`, `\'`, `\\`, `\n`, `\u0041`, "é", " ", `\7`, "T"}
 	// message / comment text pieces; line breaks are added for block comments only
-	textPieces = []string{"fix", " ", "this", "  ", "a", "TODO", "todo:", "FIXME", " later", "(x)", ":", "/*", "//", "#", `"`, "'", "é", "日本語", "—", "b1", ".", ",", "(bob)", "@", "-", "+", `\`, "`", "{}", "x=1;", "\t", "see TODO", "not a fixme", "!", "/", "T", "TOD", "FIX ME", "xTODO", "_FIXME", "to do"}
+	textPieces = []string{"fix", " ", "this", "  ", "a", "TODO", "todo:", "FIXME", " later", "(x)", ":", "/*", "//", "#", `"`, "'", "é", "日本語", "—", "b1", ".", ",", "(bob)", "@", "-", "+", `\`, "`", "{}", "x=1;", "\t", "see TODO", "not a fixme", "!", "/", "T", "TOD", "FIX ME", "xTODO", "_FIXME", "to do", "|", "// TODO: z", "# FIXME y", "TODO(bob): w", "FIXM", "TODo", "😀"}
 	starPieces = []string{"*", " * ", "**", "a*b", "*/"}
-	nlPieces   = []string{"\n", "\n * ", "\n\t", "\n *", "\r\n", "\n\n"}
+	nlPieces   = []string{"\n", "\n * ", "\n\t", "\n *", "\r\n", "\n\n", "\n * TODO: y", "\nFIXME(x): z", "\n// todo: w", "\n# TODO"}
 	openPieces = []string{"a", " ", "TODO", "TODO: x", "\n", "fixme(b) y", ".", "(", ")", "1"}
 	selExts    = []string{".java", ".py", ".go", ".ts", ".js", ".kt", ".groovy", ".gradle"}
 	otherExts  = []string{".txt", ".ajava", ".mjs", ".javax", ".java~", ".java.txt", ".jav", ".kts", ".gradle.kts", ".c", ".rb", ".md", ".pyc", ".tsx", ".json", ".cc", ".hh", ".f90x", ".c+", ".h2"}
 	extraExts  = []string{".c", ".rb", ".txt", ".h", ".f90", ".c++", ".m4", ".s"}
-	stemList   = []string{"a", "Main", "b_1", "Todo", "x", "util", "java", "my-file", "py"}
+	stemList   = []string{"a", "Main", "b_1", "Todo", "x", "util", "java", "my-file", "py", "a.min", "Foo.test", "x.py", "My File", "naïve", "变量", "A$1", ".eslintrc", "TODO", "v1.2.3", longStem}
 	// dirList: "" = the scanned directory itself. Hidden directories, directories that tools
 	// commonly skip (vendor, node_modules, build, target, testdata), deep nesting, and directories
 	// whose name ends in a selected extension (highlight.js, pkg.java, x.py, app.go) are directories
 	// like any other: the files in them are scanned, the directories themselves are not files.
-	dirList   = []string{"", "", "pkg", "pkg/inner", "src", "java", ".hidden", "vendor/lib", "node_modules/highlight.js", "build", "target/classes", "testdata", "test-data", "a/b/c/d", "pkg.java", "x.py", "app.go/cmd", "v1.2"}
+	dirList   = []string{"", "", "pkg", "pkg/inner", "src", "java", ".hidden", "vendor/lib", "node_modules/highlight.js", "build", "target/classes", "testdata", "test-data", "a/b/c/d", "pkg.java", "x.py", "app.go/cmd", "v1.2", "my dir", "módulo/TODO", "src/main/java/com/example/app"}
 	tplPieces = []string{"a", " ", "//", "/*", "*/", "#", "TODO", "TODO: x", "// FIXME(bob): y", "\n", "\n# todo: z\n", "/* todo */", "'", "\"", "${x}", "é", "\n// TODO: in a raw string"}
+)
+
+// longStem: a file name near the usual limit of 255 bytes.
+var longStem = "long_" + strings.Repeat("n", 200)
+
+// fills: lengths of the filler: past 128, past 4096 (a common buffer size) and past 65536 (a common
+// limit on the length of one line); lineFills: further line breaks, so that line numbers pass 100 and 1000.
+var (
+	fills     = []int{130, 4100, 4100, 66000}
+	lineFills = []int{120, 1100}
 )
 
 // dotDirsAllowed: directories whose name ends in a selected extension (feature switch of a finding).
@@ -1058,6 +1269,10 @@ func dotDirsAllowed() bool { return !pbt.Excluded("directory_named_like_a_select
 // starAllowed: an asterisk inside the message of a line or hash comment (feature switch of a
 // finding; see known_findings.json).
 func starAllowed() bool { return !pbt.Excluded("asterisk_in_line_or_hash_message") }
+
+// hugeWordAllowed: a word of more than 46341 characters in the message of a reportable comment
+// (feature switch of a finding: the table of `coca todo` never finishes on it).
+func hugeWordAllowed() bool { return !pbt.Excluded("word_wider_than_46341_columns_in_todo_message") }
 
 // hashAllowed: hash comments at all (feature switch of a finding).
 func hashAllowed() bool { return !pbt.Excluded("hash_comment") }
@@ -1262,6 +1477,7 @@ func genSegs(ch chooser, maxSegs int) []Seg {
 		}
 		segs = append(segs, s)
 	}
+	segs = genExtras(ch, segs)
 	// end of file: nothing, a line break, or an unterminated block comment
 	switch ch.n(7) {
 	case 0, 1, 2, 3:
@@ -1282,6 +1498,101 @@ func genSegs(ch chooser, maxSegs int) []Seg {
 	return segs
 }
 
+// sepAfter: white space that may follow the last segment so far: it begins with a line break
+// when that segment is a line or hash comment.
+func sepAfter(segs []Seg, ws string) string {
+	if len(segs) > 0 && (segs[len(segs)-1].K == kLine || segs[len(segs)-1].K == kHash) && !strings.HasPrefix(ws, "\n") {
+		return "\n" + ws
+	}
+	return ws
+}
+
+func toCRLF(s string) string {
+	return strings.ReplaceAll(strings.ReplaceAll(s, "\r\n", "\n"), "\n", "\r\n")
+}
+
+// genExtras: rarer shapes of one file, each behind its own draw (0 = the file stays as it is):
+// an earlier comment once more, a long list of reportable comments, one very long segment, one long
+// run of line breaks, CRLF as the file's only line break.
+func genExtras(ch chooser, segs []Seg) []Seg {
+	// the same comment once more, on a later line or (after a block comment) on the same line
+	if ch.n(11) == 11 {
+		var comments []int
+		for i, s := range segs {
+			if s.isComment() {
+				comments = append(comments, i)
+			}
+		}
+		if len(comments) > 0 {
+			dup := segs[comments[ch.n(len(comments)-1)]]
+			ws := pick(ch, []string{"\n", " ", "\n\n", ""})
+			if last := segs[len(segs)-1]; last.K == kCode && strings.HasSuffix(last.T, "/") && ws == "" {
+				ws = " "
+			}
+			if ws = sepAfter(segs, ws); ws != "" {
+				segs = append(segs, Seg{K: kWs, T: ws})
+			}
+			segs = append(segs, dup)
+		}
+	}
+	// many reportable comments, one per line: 9 to 100 of them
+	if ch.n(29) == 29 {
+		n := 9 + ch.n(91)
+		kinds := []string{kLine, kBlock, kHash}
+		if !hashAllowed() {
+			kinds[2] = kLine
+		}
+		for i := 0; i < n; i++ {
+			segs = append(segs, Seg{K: kWs, T: "\n"})
+			segs = append(segs, Seg{K: kinds[ch.n(2)], Lead: " ", Mark: pick(ch, marks), Sep: ":", Gap: " ", Body: fmt.Sprintf("item %d", i)})
+		}
+	}
+	// one very long segment
+	if ch.n(24) == 24 && len(segs) > 0 {
+		i := ch.n(len(segs) - 1)
+		s := &segs[i]
+		switch {
+		case s.K == kWs:
+			s.Fill = lineFills[ch.n(len(lineFills)-1)]
+		case s.K == kStr || s.K == kTpl || s.isComment() || (s.K == kCode && reIdent.MatchString(s.T)):
+			s.Fill = fills[ch.n(len(fills)-1)]
+			if s.isComment() && s.Mark != "" && s.Fill > 46000 && !hugeWordAllowed() {
+				s.Fill = 4100
+			}
+			if s.isComment() && s.Mark != "" && s.Sep == "" && s.Gap == "" && s.Body == "" {
+				s.Gap = " " // "TODO xxx", not "TODOxxx"
+			}
+		}
+	}
+	// a form feed at the end of one run of white space (a line break that must follow a line or
+	// hash comment stays in front of it)
+	if ch.n(14) == 14 {
+		var wss []int
+		for i, s := range segs {
+			if s.K == kWs {
+				wss = append(wss, i)
+			}
+		}
+		if len(wss) > 0 {
+			i := wss[ch.n(len(wss)-1)]
+			segs[i].T += pick(ch, []string{"\f", "\f\n", " \f "})
+		}
+	}
+	// CRLF throughout
+	if ch.n(14) == 14 {
+		for i := range segs {
+			s := &segs[i]
+			switch s.K {
+			case kWs, kTpl:
+				s.T = toCRLF(s.T)
+			case kBlock:
+				s.Lead, s.Sep, s.Gap, s.Body = toCRLF(s.Lead), toCRLF(s.Sep), toCRLF(s.Gap), toCRLF(s.Body)
+			}
+		}
+	}
+	return segs
+}
+
 // genFilters: the CLI's default list, or a subset, possibly with an extra extension.
 func genFilters(ch chooser) []string {
 	var out []string
@@ -1298,10 +1609,19 @@ func genFilters(ch chooser) []string {
 			out = append(out, pick(ch, extraExts))
 		}
 	}
-	return dedup(out)
+	out = dedup(out)
+	if ch.n(9) == 9 { // one extension named twice ("-e .java,.py,.java")
+		out = append(out, out[ch.n(len(out)-1)])
+	}
+	return out
 }
 
 func genCase(ch chooser, maxFiles, maxSegs int) Case {
+	return genCaseFor(ch, maxFiles, maxSegs, false)
+}
+
+// genCaseFor: forCLI adds the choices that only the command line has (spelling and order of the options).
+func genCaseFor(ch chooser, maxFiles, maxSegs int, forCLI bool) Case {
 	c := Case{}
 	c.Filters = genFilters(ch)
 	nFiles := 1 + ch.n(maxFiles-1)
@@ -1355,7 +1675,36 @@ func genCase(ch chooser, maxFiles, maxSegs int) Case {
 			path = mk()
 		}
 		used[path] = true
-		c.Files = append(c.Files, SrcFile{Path: path, Segs: genSegs(ch, maxSegs)})
+		f := SrcFile{Path: path, Segs: genSegs(ch, maxSegs), Bom: ch.n(19) == 19}
+		if f.Bom && len(f.Segs) > 1 && f.Segs[0].K == kWs && ch.n(1) == 1 {
+			f.Segs = f.Segs[1:] // the first token directly after the byte order mark
+		}
+		c.Files = append(c.Files, f)
+	}
+	// the same file (name and text) once more in another directory
+	if ch.n(14) == 14 {
+		src := c.Files[ch.n(len(c.Files)-1)]
+		if path := "copy/" + src.Path; !clash(path) {
+			used[path] = true
+			c.Files = append(c.Files, SrcFile{Path: path, Segs: append([]Seg{}, src.Segs...), Bom: src.Bom})
+		}
+	}
+	// many files: 7 to 40 more, small ones
+	if ch.n(39) == 39 {
+		n := 7 + ch.n(33)
+		for i := 0; i < n; i++ {
+			ext := pick(ch, c.Filters)
+			if ch.n(3) == 3 {
+				ext = pick(ch, otherExts)
+			}
+			path := fmt.Sprintf("%sf%d%s", pick(ch, []string{"", "many/", "many/more/", "pkg/"}), i, ext)
+			if clash(path) {
+				continue
+			}
+			used[path] = true
+			segs := []Seg{{K: kLine, Lead: " ", Mark: pick(ch, marks), Sep: ":", Gap: " ", Body: fmt.Sprintf("file %d", i)}, {K: kWs, T: "\n"}}
+			c.Files = append(c.Files, SrcFile{Path: path, Segs: append(segs, genSegs(ch, 2)...)})
+		}
 	}
 	// sequences and spellings (0 = the plain variant: one scan of the directory)
 	if ch.n(5) == 5 {
@@ -1383,6 +1732,40 @@ func genCase(ch chooser, maxFiles, maxSegs int) Case {
 	}
 	if ch.n(3) == 3 {
 		c.LongFlags = true
+	}
+	// the directory in a second state: one or two files, under paths of the first state (other
+	// content) or under new ones
+	if ch.n(9) == 9 {
+		n := 1 + ch.n(1)
+		used2 := map[string]bool{}
+		for i := 0; i < n; i++ {
+			path := c.Files[ch.n(len(c.Files)-1)].Path
+			if ch.n(2) == 2 || used2[path] {
+				path = fmt.Sprintf("second/%s%d%s", pick(ch, stemList), i, pick(ch, c.Filters))
+			}
+			ok := !used2[path]
+			for u := range used2 {
+				if strings.HasPrefix(u, path+"/") || strings.HasPrefix(path, u+"/") {
+					ok = false
+				}
+			}
+			if !ok {
+				continue
+			}
+			used2[path] = true
+			c.Files2 = append(c.Files2, SrcFile{Path: path, Segs: genSegs(ch, maxSegs/2)})
+		}
+	}
+	if !forCLI && (c.Twice || len(c.Filters2) > 0 || c.Single != "" || len(c.Files2) > 0) && ch.n(1) == 1 {
+		c.SameApp = true
+	}
+	if forCLI {
+		if ch.n(2) == 2 {
+			c.FlagForm = 2 + ch.n(2)
+		}
+		if ch.n(3) == 3 {
+			c.ExtFirst = true
+		}
 	}
 	return c
 }
@@ -1421,7 +1804,7 @@ func genAPI(t *rapid.T) Case {
 }
 
 func genCLI(t *rapid.T) Case {
-	return genCase(rapidChooser{t}, 3, 14)
+	return genCaseFor(rapidChooser{t}, 3, 14, true)
 }
 
 // genDefaults: `coca todo` without -e. One file for every extension of the documented default
@@ -1442,14 +1825,17 @@ func genDefaults(t *rapid.T) Case {
 	}
 	c.PathForm = ch.n(5)
 	c.LongFlags = ch.n(3) == 3
+	if ch.n(2) == 2 {
+		c.FlagForm = 2 + ch.n(2)
+	}
 	return c
 }
 
 func init() {
 	pbt.SetProperty("C17")
-	pbt.Describe("rapid-generated directories of 1-3 (now and then up to 5) files in the directory itself or in sub-directories (plain, hidden, vendor / node_modules / build / target / testdata, four levels deep, and directories whose own name ends in a selected extension: node_modules/highlight.js, pkg.java, x.py, app.go); a file is 0-12 (thorough 0-18) segments: code tokens (identifiers incl. TODO/FIXME, numbers, operators incl. / and *, separators), Java-style string literals, one-character char literals and back-tick template / raw string literals (possibly multi-line) containing //, /*, */, #, TODO, escapes, line / block / hash comments, white space (incl. CRLF and runs of line breaks, so that comments start on lines >= 10), optionally an unterminated block comment as last segment. Comment text = blanks (none, 1-8 spaces and tabs) + [TODO|FIXME in 10 letter cases] + ['' | ':' | '(name)' | '(name):' | a punctuation character -.!,;?/=> directly after the mark; the name may be padded with 1-3 spaces inside the parentheses on the left, on the right or on both sides ('( bob )'), and the colon may stand off from the mark or from '(name)' by blanks ('TODO :', 'TODO(bob) \t:')] + blanks + text built from hostile pieces (comment markers, quotes, parentheses, colons, non-ASCII, words that mention TODO/FIXME, in block comments line breaks with and without ' * ' decoration); names from the tool's assignee alphabet incl. upper case, leading digit or underscore, long, and names of 1-5 characters built from that alphabet (letters, digit, _ . + - @, inner spaces); also empty, one-character and blanks-only comments. In block comments each of the three runs of blanks may instead hold line breaks (LF, CRLF, several, with indentation): between '/*' and the text, so that the text (marked or ordinary) starts one or more lines below the comment marker ('/*\\n  TODO(bob): x\\n*/', also marker only and blanks-and-line-breaks only), between the mark or its separator and the message ('/* TODO:\\n   x */'), and between the mark or '(name)' and the colon; the comment's line stays the line of '/*'. Files therefore occur whose only reportable comments have no TODO/FIXME on the line of their comment marker. File extensions from the selected list, from the CLI's default list, and near misses (.javax, .java.txt, .java~, .kts, .gradle.kts, .cc, .hh ...); filters from the default list plus .c .rb .txt .h .f90 .c++ .m4 .s. Sequences: the same scan twice; a second scan of the same directory with other filters (same process / same working directory) and then the first again; a scan of one selected file by its own path. Entry points: todo.TodoApp.AnalysisPath (absolute path, with and without trailing slash) and `coca todo` with -p src | absolute | ./src | src/ | . | no -p (working directory = the directory), -p/-e or --path/--ext=, and without -e (documented default list; sub-check cli_default puts a reportable comment into one file per default extension). Expected entries (file, start line, assignee, message) are computed from the segments; for the CLI the table on stdout must have one row per entry of simple-todos.json with the same line numbers and 'Todos Count' must be their number. Non-trivial = a file with a selected extension holds at least one reportable comment and at least one decoy (literal containing a comment marker or TODO/FIXME, or comment mentioning TODO/FIXME later); distinct = hash of the sorted (selected?, extension, text) of the files.",
+	pbt.Describe("rapid-generated directories of 1-3 (now and then up to 5) files in the directory itself or in sub-directories (plain, hidden, vendor / node_modules / build / target / testdata, four levels deep, and directories whose own name ends in a selected extension: node_modules/highlight.js, pkg.java, x.py, app.go); a file is 0-12 (thorough 0-18) segments: code tokens (identifiers incl. TODO/FIXME, numbers, operators incl. / and *, separators), Java-style string literals, one-character char literals and back-tick template / raw string literals (possibly multi-line) containing //, /*, */, #, TODO, escapes, line / block / hash comments, white space (incl. CRLF and runs of line breaks, so that comments start on lines >= 10), optionally an unterminated block comment as last segment. Comment text = blanks (none, 1-8 spaces and tabs) + [TODO|FIXME in 10 letter cases] + ['' | ':' | '(name)' | '(name):' | a punctuation character -.!,;?/=> directly after the mark; the name may be padded with 1-3 spaces inside the parentheses on the left, on the right or on both sides ('( bob )'), and the colon may stand off from the mark or from '(name)' by blanks ('TODO :', 'TODO(bob) \t:')] + blanks + text built from hostile pieces (comment markers, quotes, parentheses, colons, non-ASCII, words that mention TODO/FIXME, in block comments line breaks with and without ' * ' decoration); names from the tool's assignee alphabet incl. upper case, leading digit or underscore, long, and names of 1-5 characters built from that alphabet (letters, digit, _ . + - @, inner spaces); also empty, one-character and blanks-only comments. In block comments each of the three runs of blanks may instead hold line breaks (LF, CRLF, several, with indentation): between '/*' and the text, so that the text (marked or ordinary) starts one or more lines below the comment marker ('/*\\n  TODO(bob): x\\n*/', also marker only and blanks-and-line-breaks only), between the mark or its separator and the message ('/* TODO:\\n   x */'), and between the mark or '(name)' and the colon; the comment's line stays the line of '/*'. Files therefore occur whose only reportable comments have no TODO/FIXME on the line of their comment marker. File extensions from the selected list, from the CLI's default list, and near misses (.javax, .java.txt, .java~, .kts, .gradle.kts, .cc, .hh ...); filters from the default list plus .c .rb .txt .h .f90 .c++ .m4 .s. Sequences: the same scan twice; a second scan of the same directory with other filters (same process / same working directory) and then the first again; a scan of one selected file by its own path. Entry points: todo.TodoApp.AnalysisPath (absolute path, with and without trailing slash) and `coca todo` with -p src | absolute | ./src | src/ | . | no -p (working directory = the directory), -p/-e or --path/--ext=, and without -e (documented default list; sub-check cli_default puts a reportable comment into one file per default extension). Expected entries (file, start line, assignee, message) are computed from the segments; for the CLI the table on stdout must have one row per entry of simple-todos.json with the same line numbers and 'Todos Count' must be their number. Non-trivial = a file with a selected extension holds at least one reportable comment and at least one decoy (literal containing a comment marker or TODO/FIXME, or comment mentioning TODO/FIXME later); distinct = hash of the sorted (selected?, extension, text) of the files. Widened by the checklist audit, every shape behind its own draw: file names with several dots (a.min.js, Foo.test.java, x.py.java, v1.2.3.go), with a blank, a dollar sign, non-ASCII letters, a leading dot (.eslintrc.js), the name TODO and a name of more than 200 bytes, directories with a blank / non-ASCII letters / six levels deep; a byte order mark at the start of a file (the shipped lexer reads it as an identifier character), also directly before the first token; one segment of a file made very long (an identifier, a string or template literal, an ordinary or a reportable comment followed by 130, 4100 or 66000 letters: lines past 4096 and past 65536 bytes, with reportable comments below them) or one run of white space extended by 120 or 1100 line breaks (line numbers past 100 and 1000); a form feed in a run of white space between tokens; files whose only line break is CRLF; runs of 17, 10 (tabs) and 70 blanks after the comment marker and before the message; the same comment a second time in the same file; the same file (name and text) a second time in another directory; 9-100 further reportable comments in one file and 7-40 further small files in one directory (past 8, 16, 32, 64); an extension named twice in the filter list; assignees named todo / FIXME / todo.bot; block comments (ordinary and reportable) with a later line that begins with TODO / FIXME, with or without ' * ' decoration or a line / hash comment marker in front (one comment, one entry at most); an emoji in messages and literals. Sequences: after all other scans the directory is emptied and filled with one or two other files, partly under the paths of the first state, and scanned again with the same filters; the API scans of one case use, by a draw, one TodoApp value for all of them. CLI: the options also as --path=v --ext v, -p=v -e=v and -pv -ev (value attached), and -e before -p.",
 		"messages are compared after collapsing white space and trimming; in block comments an asterisk counts as white space on both sides (continuation-line decoration and terminator), in line and hash comments it is ordinary text",
-		"forms the statement leaves open are not generated: mark directly followed by a letter, digit or underscore (TODOS, TODO1), message starting with ':' or '(' , blank between mark and '(name)', colon before '(name)', more than one colon, names outside [A-Za-z0-9_ .+-@], names that are blanks only, tabs inside the parentheses, /** doc comments, block comments whose first text line carries a ' * ' decoration before the mark (generated only as ordinary comments: their text begins with an asterisk), white space other than space, tab, LF and CRLF (form feed, vertical tab, NBSP and other Unicode white space) or letters that upper-case to ASCII directly after the comment marker or the mark, form feed / U+2028 line ends, back-slashes inside template strings, Python single-quoted and triple-quoted strings, .gitignore files, paths containing testData, extensions that differ from a filter only in letter case, filters with more than one dot",
+		"forms the statement leaves open are not generated: mark directly followed by a letter, digit or underscore (TODOS, TODO1), message starting with ':' or '(' , blank between mark and '(name)', colon before '(name)', more than one colon, names outside [A-Za-z0-9_ .+-@], names that are blanks only, tabs inside the parentheses, /** doc comments, block comments whose first text line carries a ' * ' decoration before the mark (generated only as ordinary comments: their text begins with an asterisk), white space other than space, tab, LF and CRLF (form feed, vertical tab, NBSP and other Unicode white space) or letters that upper-case to ASCII directly after the comment marker or the mark, form feed / U+2028 line ends, back-slashes inside template strings, Python single-quoted and triple-quoted strings, .gitignore files, paths containing testData, extensions that differ from a filter only in letter case, filters with more than one dot, filters without a leading dot or with blanks, empty elements of the filter list, files without any extension or whose whole name is the extension (.java), `coca todo --git` (it needs a git repository and ends the process outside one), a byte order mark anywhere but at the start of the file, invalid UTF-8, a lone carriage return as line break (also inside template literals)",
 		"a name padded with spaces inside the parentheses ('( bob )'): the expected assignee is the name; the statement does not say whether the report keeps the blanks next to the parentheses, so the reported assignee is compared after trimming them (for an unpadded name the comparison is exact); the message must be the remaining text either way",
 		"in a block comment a line break (LF or CRLF) counts among the blanks after the comment marker: a block comment whose text starts on a later line and begins there with TODO/FIXME is a reportable comment, reported with the line of its '/*' (the statement: 'the line where the comment starts'); likewise the message may start on a later line than the mark (messages are compared with white space collapsed)",
 		"without -e the selected extensions are the default list documented by `coca todo --help` (.java,.py,.go,.ts,.js,.kt,.groovy,.gradle)",
